@@ -395,8 +395,31 @@ class Orchestrator:  # thailint: ignore[srp]
             return self.lint_files(file_paths)
 
         violations = self._execute_parallel_linting(file_paths, effective_workers)
+        self._collect_cross_file_evidence(file_paths)
         violations.extend(self._finalize_rules())
         return violations
+
+    def _collect_cross_file_evidence(self, file_paths: list[Path]) -> None:
+        """Show every file to the rules that report in finalize() (cross-file rules).
+
+        Worker processes cannot share what they collect, so without this pass the parent's
+        finalize() has nothing to report (duplicate code, repeated string sets). The per-file
+        results of these rules already come back from the workers and are not collected again.
+        """
+        self._ensure_rules_discovered()
+        cross_file_rules = [
+            rule
+            for rule in self.registry.list_all()
+            if type(rule).finalize is not BaseLintRule.finalize
+        ]
+        if not cross_file_rules:
+            return
+        metadata = {**self.config, "_project_root": self.project_root}
+        for file_path in file_paths:
+            if _is_hardcoded_excluded(file_path) or self.ignore_parser.is_ignored(file_path):
+                continue
+            context = FileLintContext(file_path, detect_language(file_path), metadata=metadata)
+            self._execute_rules(cross_file_rules, context)
 
     def _execute_parallel_linting(
         self, file_paths: list[Path], max_workers: int
